@@ -238,6 +238,52 @@ def match_known(known, prop, harness, notes):
 
 
 # --------------------------------------------------------------------------------------------
+# syntactic contract guards (not solver-decided; a failing guard makes the check UNDECIDED, since
+# the compositional argument no longer covers the code, never a VIOLATION)
+
+def guard_k_txt():
+    """K-TXT: the only callers of Token::set_content are the three rules C01 encodes."""
+    allowed = {"core/src/rules/lowercase_keywords.rs", "core/src/rules/comment_contents.rs",
+               "core/src/rules/optimising_line_formatter/multiline_strings.rs"}
+    bad = []
+    for root in ("core/src", "front-end/src", "orchestrator/src"):
+        for dp, _, fs in os.walk(os.path.join(REPO, root)):
+            for f in fs:
+                if not f.endswith(".rs"):
+                    continue
+                path = os.path.join(dp, f)
+                rel = os.path.relpath(path, REPO)
+                text = open(path).read()
+                # ignore test modules and the definition itself
+                body = text.split("#[cfg(test)]")[0]
+                for m in re.finditer(r"\.set_content\(", body):
+                    if rel not in allowed:
+                        bad.append(f"{rel}:{body[:m.start()].count(chr(10)) + 1}")
+    return ("K-TXT", "only the three content rules call Token::set_content", bad)
+
+
+def guard_no_remover():
+    """No TokenRemover is registered by the shipped formatter; the formatting stages are the five C01/C08 encode."""
+    text = open(os.path.join(REPO, "front-end/src/lib.rs")).read()
+    m = re.search(r"pub fn make_formatter\(.*?\n\}\n", text, re.S)
+    body = m.group(0) if m else ""
+    bad = []
+    if not body:
+        bad.append("make_formatter not found")
+    if ".token_remover(" in body:
+        bad.append("front-end/src/lib.rs: make_formatter registers a token remover")
+    stages = re.findall(r"\.(?:file_formatter|line_formatter)\((\w+)", body)
+    expected = ["TokenSpacing", "LowercaseKeywords", "CommentFormatter", "FormatterSelector", "OptimisingLineFormatter"]
+    if stages != expected:
+        bad.append(f"formatting stages are {stages}, the encoding assumes {expected}")
+    return ("K-STAGES", "make_formatter registers no token remover and exactly the five encoded formatting stages", bad)
+
+
+GUARDS = {"C01": [guard_k_txt, guard_no_remover], "C03": [guard_no_remover], "C06": [guard_no_remover],
+          "C07": [guard_k_txt], "C08": [guard_no_remover]}
+
+
+# --------------------------------------------------------------------------------------------
 # a property check
 
 def select(obligations, tier):
@@ -254,12 +300,24 @@ def handle_failure(prop, feature, ob, res, known, lines):
         return {"class": "inconclusive", "why": "unwinding assertion failed: the loop bound of this harness is too small for the current source"}
     ob_pb = dict(ob)
     ob_pb["mem_gb"] = max(24, 2 * ob.get("mem_gb", 10))  # trace generation needs more memory
-    ob_pb["timeout"] = max(900, int(1.5 * ob.get("timeout", 600)))
+    ob_pb["timeout"] = min(1200, max(600, int(1.5 * ob.get("timeout", 600))))
     r2, text2 = run_kani(feature, ob_pb, tag="playback",
                          extra=["-Z", "concrete-playback", "--concrete-playback=print"])
     cands = extract_playback_values(text2)
     if not cands:
-        return {"class": "inconclusive", "why": "solver reported a failure but no concrete values could be extracted",
+        # trace generation did not fit (it switches formula slicing off): the solver's verdict stands,
+        # look for a concrete witness natively (bounded enumeration of small values, assumptions prune)
+        try:
+            p = subprocess.run([replay_bin("dev"), "--search", short], env=ENV, text=True,
+                               stdout=subprocess.PIPE, stderr=subprocess.STDOUT, timeout=900)
+            m = re.search(r"^SEARCH FOUND runs=(\d+) values=(.*)$", p.stdout, re.M)
+        except Exception:  # noqa
+            m = None
+        if m:
+            vals = [[int(b) for b in v.split(",") if b != ""] for v in m.group(2).split(";")]
+            cands = [{"kind": "native-search", "check": f"found after {m.group(1)} native runs", "values": vals}]
+    if not cands:
+        return {"class": "inconclusive", "why": "solver reported a failure but no concrete values could be extracted (playback out of memory/time, native search found nothing)",
                 "failed": res["failed"]}
     os.makedirs(CEX, exist_ok=True)
     outcomes, detail, values = {}, {}, None
@@ -406,6 +464,13 @@ def check(prop, tier, seed):
                 inconclusive.append((ob, h.get("why", "")))
         records.append(rec)
 
+    for g in GUARDS.get(prop, []):
+        name, what, bad = g()
+        records.append({"id": "guard:" + name, "harness": "run.py:" + g.__name__, "what": what + " (syntactic guard of a contract the composition assumes; not solver-decided)",
+                        "bounds": "source scan of /repo", "functions": [], "status": "pass" if not bad else "inconclusive",
+                        "class": "guard-ok" if not bad else "undecided", "detail": bad})
+        if bad:
+            inconclusive.append(({"harness": "guard:" + name}, f"assumed contract no longer holds in the source: {bad}"))
     for s in smt_results:
         records.append(s)
         if s["class"] == "violation":
@@ -427,13 +492,13 @@ def check(prop, tier, seed):
         return 1
     if inconclusive:
         return 2
-    print(f"OK property={prop} tier={tier}: {sum(1 for r in records if r['class'] in ('discharged', 'witness-ok'))} obligations discharged in {time.time() - t0:.0f}s")
+    print(f"OK property={prop} tier={tier}: {sum(1 for r in records if r['class'] in ('discharged', 'witness-ok', 'guard-ok'))} obligations discharged in {time.time() - t0:.0f}s")
     return 0
 
 
 def write_evidence(prop, tier, seed, spec, records, t0, gen, violations=0, known=(), replay_built=None, note=None):
     os.makedirs(EVID, exist_ok=True)
-    discharged = [r for r in records if r.get("class") in ("discharged", "witness-ok")]
+    discharged = [r for r in records if r.get("class") in ("discharged", "witness-ok", "guard-ok")]
     nontrivial = [r for r in records if r.get("class") == "discharged"]
     funcs = sorted({f for r in records for f in r.get("functions", [])})
     ev = {
